@@ -1,5 +1,5 @@
 # C18: distances, gradients and wrapping of variable values form a consistent metric.
-import os, sys, json, math
+import os, sys, json, math, threading
 import vcommon as V
 
 PROP = "coq/C18/Properties_C18.v"
@@ -13,12 +13,14 @@ def hx(x):
 def close(a, b, tol=TOL):
     if math.isnan(a) or math.isnan(b):
         return False
+    if a == b:          # equal infinities (gradient at the exact antipode of a unit vector)
+        return True
     return abs(a - b) <= tol * max(1.0, abs(a), abs(b))
 
 
 def parse(line):
     try:
-        return [float.fromhex(t) for t in line.split()]
+        return [float(t) if t.lstrip("+-").lower() in ("inf", "infinity", "nan") else float.fromhex(t) for t in line.split()]
     except ValueError:
         return None
 
@@ -106,7 +108,8 @@ def gen_groups(r, n):
             g.add_fd(r, 2.0 ** -6)
         elif kind == "UV":
             g = Group("UV", "", unit(r, 3), unit(r, 3), manifold=True)
-            g.add_fd(r, 1e-4)
+            if sum(a * b for a, b in zip(g.x1, g.x2)) > -0.98:      # near the antipode the third derivative makes the central difference too coarse
+                g.add_fd(r, 1e-4)
         elif kind == "Q":
             q1, q2 = unit(r, 4), unit(r, 4)
             g = Group("Q", "", q1, q2, manifold=True)
@@ -146,7 +149,10 @@ def dyadic_unit4(r):
 
 # ---- real single-component variables of every kind: colvar::dist2 / dist2_lgrad / dist2_rgrad / wrap ----
 SCALAR_KINDS = ["distance", "eulerTheta", "polarTheta", "tilt", "orientationAngle"]
-PERIODIC_KINDS = ["dihedral", "spinAngle", "eulerPhi", "eulerPsi", "polarPhi", "dihedralSum"]       # period 360, wrapAround configurable
+PERIODIC_KINDS = ["dihedral", "spinAngle", "eulerPhi", "eulerPsi", "polarPhi", "dihedralSum", "dihedralDiff"]       # period 360, wrapAround configurable
+# sums of components with different periodicities (NOT periodic: plain scalar metric) and components that nest other components
+MIXED_KINDS = ["mixDihedralDistance", "mixAngleDihedral", "mixPeriods"]
+NESTED_SCALAR_KINDS = ["lcScalar", "gspathCV", "gzpathCV", "aspathCV", "azpathCV"]
 # dihedralCoeff2: a periodic component with coefficient 2 makes a NON-periodic variable (documented: "will not be treated as periodic")
 WRAP_CENTRES = [0.0, 90.0, -180.0, 180.0, 45.5, -77.25]
 SCRIPTED_PERIODS = [360.0, 2.0, 8.0]
@@ -161,9 +167,9 @@ class CGroup:
     def __init__(self, r):
         m = r.random()
         self.P = None; self.c = 0.0; self.n = 1; self.manifold = False
-        if m < 0.15:
-            self.kind = r.choice(SCALAR_KINDS + ["dihedralCoeff2"]); self.cls = "scalar"
-            if self.kind == "dihedralCoeff2":
+        if m < 0.22:
+            self.kind = r.choice(SCALAR_KINDS + ["dihedralCoeff2"] + MIXED_KINDS + MIXED_KINDS + NESTED_SCALAR_KINDS); self.cls = "scalar"
+            if self.kind == "dihedralCoeff2" or self.kind in MIXED_KINDS:
                 self.c = r.choice(WRAP_CENTRES)
         elif m < 0.50:
             self.kind = r.choice(PERIODIC_KINDS); self.cls = "periodic"; self.P = 360.0; self.c = r.choice(WRAP_CENTRES)
@@ -174,13 +180,18 @@ class CGroup:
             self.kind = "distanceDir"; self.cls = "unit"; self.n = 3; self.manifold = True
         elif m < 0.85:
             self.kind = "orientation"; self.cls = "quat"; self.n = 4; self.manifold = True
-        elif m < 0.93:
+        elif m < 0.90:
             self.kind = "cartesian"; self.cls = "vector"; self.n = 6
+        elif m < 0.94:
+            self.kind = "lcVec3"; self.cls = "vector"; self.n = 3
         else:
             self.kind = "distancePairs"; self.cls = "vector"; self.n = 4
         P = self.P
         if self.cls == "scalar":
             x1 = [V.dyadic(r, -50, 50)]; x2 = [V.dyadic(r, -50, 50)]
+            if self.kind in MIXED_KINDS and r.random() < 0.6:
+                # values a whole number of periods of ONE of the components apart: different values of a non-periodic variable
+                x1 = [x2[0] + r.choice([-2, -1, 1, 2]) * r.choice([360.0, 10.0, 20.0])]
         elif self.cls == "periodic":
             x2 = [V.dyadic(r, -3, 3, bits=8) * P]
             mm = r.random()
@@ -207,6 +218,8 @@ class CGroup:
             self.oncut = abs(d - round(d)) >= 0.49
         else:
             self.oncut = False
+        if self.cls == "unit":
+            self.oncut = sum(a * b for a, b in zip(x1, x2)) <= -0.98
         if self.cls == "quat":
             self.inv.append(len(self.lines)); self.lines.append(self.cd(x1, [-a for a in x2]))
             cc = sum(a * b for a, b in zip(x1, x2))
@@ -256,6 +269,8 @@ def oracle_cgroup(g, impl, run):
         run.violation("comp:%s:nonneg" % sigk, "dist2 = %r is negative for %s" % (d2, g.lines[0]), rep)
     if not close(d2, sw[0], tolm):
         run.violation("comp:%s:sym" % sigk, "%s: dist2(x1,x2) = %r but dist2(x2,x1) = %r (%s)" % (g.kind, d2, sw[0], g.lines[0]), rep)
+    if g.cls in ("scalar", "vector") and g.x1 != g.x2 and not d2 > 0:
+        run.violation("comp:%s:zero" % sigk, "%s is not a periodic variable but dist2 = %r between the different values %r and %r (%s)" % (g.kind, d2, g.x1, g.x2, g.lines[0]), rep)
     if not abs(same[0]) <= 1e-12:
         run.violation("comp:%s:self" % sigk, "%s: dist2(x,x) = %r is not zero (%s)" % (g.kind, same[0], g.lines[2]), rep)
     # the gradient with respect to the second argument is the left gradient with the arguments exchanged
@@ -283,6 +298,69 @@ def oracle_cgroup(g, impl, run):
             run.violation("comp:%s:fd%d" % (sigk, which),
                           "%s: reported %s gradient along %s is %r but the finite difference of dist2 in argument %d is %r (%s)"
                           % (g.kind, "left" if which == 1 else "right", e, an, which, fdv, g.lines[0]), rep)
+
+
+
+class TGroup:
+    """distanceVec in a general (triclinic) cell: base, swapped, identical, lattice image, +/-h in each argument"""
+    def __init__(self, r):
+        while True:
+            L = [r.choice([4.0, 8.0, 16.0]) for _ in range(3)]
+            ortho = r.random() < 0.2
+            sh = [0.0, 0.0, 0.0] if ortho else [V.dyadic(r, -0.5, 0.5, bits=3) * L[0], V.dyadic(r, -0.5, 0.5, bits=3) * L[0], V.dyadic(r, -0.5, 0.5, bits=3) * L[1]]
+            self.a = [L[0], 0.0, 0.0]; self.b = [sh[0], L[1], 0.0]; self.c = [sh[1], sh[2], L[2]]
+            self.x1 = [V.dyadic(r, -20, 20) for _ in range(3)]; self.x2 = [V.dyadic(r, -20, 20) for _ in range(3)]
+            if min(abs(f - math.floor(f) - 0.5) for f in self.frac([q - p for p, q in zip(self.x1, self.x2)])) > 1e-2:
+                break       # well off the cut, also for the finite-difference neighbours (boundary-ambiguous cases are not generated; the exact cut is a recorded limitation)
+        n = [r.randint(-2, 2) for _ in range(3)]
+        img = [q + n[0] * ai + n[1] * bi + n[2] * ci for q, ai, bi, ci in zip(self.x2, self.a, self.b, self.c)]
+        self.lines = [self.ln(self.x1, self.x2), self.ln(self.x2, self.x1), self.ln(self.x1, self.x1), self.ln(self.x1, img)]
+        h = 2.0 ** -10
+        self.fd = []
+        for which in (1, 2):
+            e = [float(r.randint(-2, 2)) for _ in range(3)]
+            if not any(e):
+                e[0] = 1.0
+            base = self.x1 if which == 1 else self.x2
+            xp = [u + h * v for u, v in zip(base, e)]; xm = [u - h * v for u, v in zip(base, e)]
+            self.fd.append((len(self.lines), e, h, which))
+            self.lines += [self.ln(xp, self.x2), self.ln(xm, self.x2)] if which == 1 else [self.ln(self.x1, xp), self.ln(self.x1, xm)]
+
+    def frac(self, d):
+        # solve d = s1 a + s2 b + s3 c for the upper-triangular cell
+        s3 = d[2] / self.c[2]; s2 = (d[1] - s3 * self.c[1]) / self.b[1]; s1 = (d[0] - s2 * self.b[0] - s3 * self.c[0]) / self.a[0]
+        return [s1, s2, s3]
+
+    def ln(self, p, q):
+        return "DVT %s %s %s %s %s" % tuple(" ".join(map(hx, v)) for v in (self.a, self.b, self.c, p, q))
+
+
+def oracle_tgroup(g, impl, run):
+    outs = [parse(impl[g.off + i]) for i in range(len(g.lines))]
+    rep = {"kind": "unit", "lines": g.lines, "impl": impl[g.off:g.off + len(g.lines)]}
+    if any(o is None or len(o) != 7 for o in outs):
+        run.violation("tricl:shape", "no numeric result for %s: %s" % (g.lines[0], impl[g.off]), rep)
+        return
+    base, sw, same, img = outs[:4]
+    d2 = base[0]
+    what = "distanceVec in the cell %r %r %r" % (g.a, g.b, g.c)
+    if not d2 >= 0:
+        run.violation("tricl:nonneg", "%s: dist2 = %r" % (what, d2), rep)
+    if not close(d2, sw[0], 1e-8):
+        run.violation("tricl:sym", "%s: dist2(x1,x2) = %r but dist2(x2,x1) = %r for x1=%r x2=%r" % (what, d2, sw[0], g.x1, g.x2), rep)
+    if not abs(same[0]) <= 1e-12:
+        run.violation("tricl:self", "%s: dist2(x,x) = %r" % (what, same[0]), rep)
+    if not close(d2, img[0], 1e-8):
+        run.violation("tricl:image", "%s: dist2 changes from %r to %r when x2 is translated by a lattice vector (%s vs %s)" % (what, d2, img[0], g.lines[0], g.lines[3]), rep)
+    if not all(close(u, v, 1e-8) for u, v in zip(base[4:7], sw[1:4])):
+        run.violation("tricl:rgrad", "%s: dist2_rgrad(x1,x2) = %r but dist2_lgrad(x2,x1) = %r" % (what, base[4:7], sw[1:4]), rep)
+    # the reduced difference must be inside the cell centred on the origin: fractional coordinates in [-1/2, 1/2]
+    for (j, e, h, which) in g.fd:
+        fdv = (outs[j][0] - outs[j + 1][0]) / (2 * h)
+        an = sum(u * v for u, v in zip(base[1:4] if which == 1 else base[4:7], e))
+        if not (abs(fdv - an) <= 1e-8 * max(1.0, abs(fdv), abs(an))):
+            run.violation("tricl:fd%d" % which, "%s: reported %s gradient along %s is %r but the finite difference of dist2 is %r (x1=%r x2=%r)"
+                          % (what, "left" if which == 1 else "right", e, an, fdv, g.x1, g.x2), rep)
 
 
 class OMGroup:
@@ -511,31 +589,61 @@ def check(run):
                        "periodic distanceZ and distanceVec with/without forceNoPBC and cell): base, swapped, identical arguments, +/-h along a (tangent) direction, "
                        "period/sign/lattice images; ~30% of periodic cases exactly on the half-period cut; component groups on real single-component variables of 17 kinds "
                        "(distance, dihedral, spinAngle, eulerPhi/Psi/Theta, polarPhi/Theta, tilt, orientationAngle, distanceDir, orientation, cartesian, distancePairs, a periodic scripted "
-                       "variable, a coefficient-2 dihedral, a sum of two dihedrals; 6 wrapping centres): dist2/lgrad/rgrad base, swapped, identical, period image, wrapped arguments, sign flip, "
+                       "variable, a coefficient-2 dihedral, a sum and a difference of two dihedrals, sums of components with different periodicities (60% of them a whole number of one component's periods apart), "
+                       "linearCombination with scalar / 3-vector value, gspathCV/gzpathCV/aspathCV/azpathCV; 6 wrapping centres): dist2/lgrad/rgrad base, swapped, identical, period image, wrapped arguments, sign flip, "
                        "colvar::wrap (30% on the interval edge), +/-h in each argument; OPES kernel-merge groups (base + period image of either centre, 30% across the wrap boundary); "
                        "wrap, interpolate (all types incl. quaternions: 20% opposite, 10% identical end points; 15% antipodal unit vectors), apply_constraints, inner/norm2, moving-restraint centres, "
+                       "distanceVec in triclinic cells (base, swapped, identical, lattice image, +/-h in each argument; never on the cut), pairs of unit vectors from the pool with opposites and one-ulp neighbours, "
                        "and histories on one periodic variable object (modifycvcs changes of period/wrapAround interleaved with colvar::wrap, colvar::dist2 and wrap-then-dist2 calls). "
                        "distinct = distinct base line; non-trivial = arguments differ")
     run.assumptions += ["theorems are about the R instance of the model; the tie runs the float instance and compares with relative tolerance 1e-9 (acos, sqrt) and exactly for dyadic cases",
-                        "the model is of the code after the fix: commits of C18 (fix-C18: dist2_rgrad, wrap of spinAngle/eulerPhi/eulerPsi, periodic scripted distance, q/-q interpolation NaN)",
+                        "the model is of the code after the fix: commits of C18 (fix-C18-3: metric of sums of components with different periodicities; fix-C18: dist2_rgrad, wrap of spinAngle/eulerPhi/eulerPsi, periodic scripted distance, q/-q interpolation NaN)",
                         "NaN is outside the real-number model: the 0/0 of interpolating q and -q at 1/2 is seen by the oracle and the float tie only"]
-    st = V.standard_start(run, PROP, "coq/C18/Extract_C18.v", "props/C18/driver.ml", {"c18unit": ["props/C18/unit.cpp"]})
-    if st is None:
-        return
-    model, exes = st
-    unitp = exes["c18unit"]
     groups = gen_groups(r, 700 if quick else 20000)
     misc = gen_misc(r, 300 if quick else 8000)
     misc += gen_obj(r, 150 if quick else 3000)
-    cgroups = [CGroup(r) for _ in range(500 if quick else 15000)]
+    cgroups = [CGroup(r) for _ in range(450 if quick else 15000)]
     omgroups = [OMGroup(r) for _ in range(60 if quick else 1500)]
+    tgroups = [TGroup(r) for _ in range(120 if quick else 4000)]
+    # every pair of a pool of the tie's unit vectors (and their opposites / one-ulp neighbours): dist2 and gradient must be finite
+    pool = [g.x1 for g in groups if g.kind == "UV"][:40 if quick else 400]
+    uvpairs = []
+    for i, u in enumerate(pool):
+        for v in (u, [-t for t in u], [math.nextafter(t, 2.0) for t in u], [math.nextafter(t, -2.0) for t in u], pool[(i * 7 + 3) % len(pool)], pool[(i * 13 + 5) % len(pool)]):
+            uvpairs.append(fmt("UV", "", u, v))
     lines = []
-    for g in groups + cgroups + omgroups:
+    for g in groups + cgroups + omgroups + tgroups:
         g.off = len(lines)
         lines += g.lines
+    uvoff = len(lines)
+    lines += uvpairs
     moff = len(lines)
     lines += misc
-    rc1, impl, e1 = V.run_lines(unitp, lines)
+    # the implementation is built and run in a thread while the property file is proved (the Print Assumptions of the theorems
+    # dominate the wall time); the model is extracted and run afterwards
+    side = {}
+
+    def impl_side():
+        try:
+            side["exe"] = V.build_prog("c18unit", ["props/C18/unit.cpp"])
+            side["out"] = V.run_lines(side["exe"], lines, cwd=V.scratch("C18"))
+        except Exception as e:      # reported below, in the main thread
+            side["err"] = e
+    th = threading.Thread(target=impl_side)
+    th.start()
+    st = V.standard_start(run, PROP, "coq/C18/Extract_C18.v", "props/C18/driver.ml", None)
+    th.join()
+    if st is None:
+        return
+    model, _ = st
+    if "err" in side:
+        e = side["err"]
+        if not isinstance(e, V.InfraError) or "compilation of /repo failed" in str(e):
+            raise e
+        run.violation("tie:harness-build", "the harness no longer builds against the tree: %s" % str(e)[-800:],
+                      {"kind": "harness-build", "log": str(e)[-3000:]}, found_input=False)
+        return
+    rc1, impl, e1 = side["out"]
     rc2, mod, e2 = V.run_lines(model, lines)
     if len(impl) != len(lines):
         run.violation("unit:crash", "the C18 unit driver died (rc=%d) after %d of %d cases: %s" % (rc1, len(impl), len(lines), e1[-300:]),
@@ -592,6 +700,20 @@ def check(run):
         run.count(g.lines[0], g.x1 != g.x2)
         run.dist("comp:" + g.kind.split(":")[0])
         oracle_cgroup(g, impl, run)
+    for g in tgroups:
+        run.count(g.lines[0], g.x1 != g.x2)
+        run.dist("triclinic")
+        oracle_tgroup(g, impl, run)
+    for i, l in enumerate(uvpairs):
+        run.count(l, True)
+        run.dist("uv-finite")
+        o = parse(impl[uvoff + i])
+        wv = [float.fromhex(t) for t in l.split()[1:]]
+        antipodal = sum(a * b for a, b in zip(wv[:3], wv[3:])) < -1 + 1e-12      # the documented singular geometry of the gradient
+        if o is None or len(o) != 4 or not math.isfinite(o[0]) or not (-1e-12 <= o[0] <= math.pi ** 2 * (1 + 1e-12)) or \
+           (not antipodal and not all(math.isfinite(t) for t in o)):
+            run.violation("metric:UV:finite", "dist2 / gradient between the unit vectors of %s is not finite or outside [0, pi^2]: %s" % (l, impl[uvoff + i]),
+                          {"kind": "unit", "lines": [l], "impl": [impl[uvoff + i]]})
     for g in omgroups:
         run.count(g.lines[0], True)
         run.dist("opes-merge")
@@ -614,6 +736,6 @@ def replay(path):
     if rp.get("kind") == "unit":
         unitp = V.build_prog("c18unit", ["props/C18/unit.cpp"])
         model = V.extract_model("C18", "coq/C18/Extract_C18.v", "props/C18/driver.ml", ["ocaml/fops.ml"])
-        print("impl :", V.run_lines(unitp, rp["lines"])[1])
+        print("impl :", V.run_lines(unitp, rp["lines"], cwd=V.scratch("C18"))[1])
         print("model:", V.run_lines(model, rp["lines"])[1])
     return 0
